@@ -23,6 +23,8 @@ def l2_part(run, exe_unused, results, env):
     l2lib.random_runs(run, exer, "Counter", ccfgs, 1000 if run.tier == "quick" else 30000, "C11", {"O-ret", "O-mem", "O-prog", "O-lin"})
     l2lib.random_runs(run, exer, "Note", ncf, 1000 if run.tier == "quick" else 30000, "C11", {"O-ret", "O-mem", "O-prog", "O-lin"})
 
+    l2lib.generated_notes(run, "C11", {"O-ret", "O-mem", "O-prog", "O-lin"})
+
 
 def main(tier, replay=None):
     return mu_check("C11", tier, replay, post=l2_part,
